@@ -8,7 +8,7 @@
    (`true`) are refuted below. *)
 From Coq Require Import List NArith ZArith Bool.
 From OV.C24 Require Import Model.
-From OV.C25 Require Import Model Spec Proofs.
+From OV.C25 Require Import Model Spec Proofs HModel HProofs.
 Import ListNotations.
 Local Open Scope N_scope.
 
@@ -59,8 +59,60 @@ Section Statements.
       match goal with |- fst (upd _ _ _ ?r) = _ => destruct r; cbn [upd fst snd] in *; try discriminate; reflexivity end.
   Qed.
 
+  (* ---- values with their hidden storage (HModel.v): a json keeps value_.object / .array / .string when a
+     typed assignment (j = 5, j = "s", j = jsonArray, j = jsonObject, also through set(key, scalar) and
+     j[path] = scalar) changes its type.  `hop` adds these assignments to the operations. *)
+  Notation hop := (hop F32 F64).
+
+  (* MAIN, hidden storage included (repaired json::set: set_no_clear = false): for every history, starting
+     from a default-constructed json, the model that carries all members of every value produces the
+     observations and the final dictionary of the specification; stale members are never observable.
+     The proof (HProofs.v) uses the `type == object_` guard of every walker. *)
+  Theorem refines_nested_dict_hidden : forall (ops : list hop),
+    let '(h', xs) := hm_run F32 F64 false false false (hnone F32 F64) ops in
+    s_run F32 F64 (DUndef F32 F64) (map (op_vis F32 F64) ops)
+      = (abs F32 F64 (vis F32 F64 h'), map (abs_obs F32 F64) (map (vis_obs F32 F64) xs)).
+  Proof.
+    intros ops.
+    assert (Hsafe : forall ops h, run_safe F32 F64 false false false h ops = true).
+    { induction ops0 as [|o t IH]; intros h; [reflexivity|]. cbn [run_safe]. rewrite IH.
+      destruct o as [[]| |]; reflexivity. }
+    pose proof (run_hidden F32 F64 false ops (hnone F32 F64) eq_refl (Hsafe ops _)) as H.
+    destruct (hm_run F32 F64 false false false (hnone F32 F64) ops) as [h' xs].
+    pose proof (run_refines F32 F64 (map (op_vis F32 F64) ops) JNone) as R.
+    change (vis F32 F64 (hnone F32 F64)) with (@JNone F32 F64) in H. rewrite H in R. exact R.
+  Qed.
+
+  (* The pinned json::set (`type = object_` without clearing; set_no_clear = true).  FULL STATEMENT (false, see
+     set_resurrects_stale_entries_refuted): the same as above with `true` for the last flag.
+     Proved under the exact guard `run_safe`: every set(key, v) of the history is applied to a value that is an
+     object, or undefined, or has no old entries. *)
+  Theorem refines_nested_dict_hidden_partial : forall (ops : list hop),
+    run_safe F32 F64 false false true (hnone F32 F64) ops = true ->
+    let '(h', xs) := hm_run F32 F64 false false true (hnone F32 F64) ops in
+    s_run F32 F64 (DUndef F32 F64) (map (op_vis F32 F64) ops)
+      = (abs F32 F64 (vis F32 F64 h'), map (abs_obs F32 F64) (map (vis_obs F32 F64) xs)).
+  Proof.
+    intros ops Hs.
+    pose proof (run_hidden F32 F64 true ops (hnone F32 F64) eq_refl Hs) as H.
+    destruct (hm_run F32 F64 false false true (hnone F32 F64) ops) as [h' xs].
+    pose proof (run_refines F32 F64 (map (op_vis F32 F64) ops) JNone) as R.
+    change (vis F32 F64 (hnone F32 F64)) with (@JNone F32 F64) in H. rewrite H in R. exact R.
+  Qed.
+
+  (* the simulation itself, from any well-formed value: hidden model = visible model through `vis` *)
+  Theorem hidden_storage_unobservable : forall (nc : bool) (ops : list hop) (h : hj F32 F64),
+    wfh F32 F64 h = true -> run_safe F32 F64 false false nc h ops = true ->
+    let '(h', xs) := hm_run F32 F64 false false nc h ops in
+    m_run F32 F64 false false (vis F32 F64 h) (map (op_vis F32 F64) ops)
+      = (vis F32 F64 h', map (vis_obs F32 F64) xs).
+  Proof. exact (run_hidden F32 F64). Qed.
+
 End Statements.
 
+Print Assumptions refines_nested_dict_hidden.
+Print Assumptions refines_nested_dict_hidden_partial.
+Print Assumptions hidden_storage_unobservable.
 Print Assumptions refines_nested_dict.
 Print Assumptions refines_from_any_state.
 Print Assumptions step_simulation.
@@ -131,6 +183,44 @@ Theorem get_without_escape_refuted :
   snd (run_fixed escape_history) = [VUnit _ _; VVal _ _ (I_ 1); VVal _ _ (I_ 1)].
 Proof. split; [vm_compute; discriminate|]. split; vm_compute; reflexivity. Qed.
 
+(* ---- hidden storage.  j["a/b/c"] = 1; j["a/b"] = 5 (typed): the number at a/b still carries the entry c *)
+Notation thop := (hop unit unit).
+Definition stale_history : list thop :=
+  [ HOp _ _ (OSet _ _ [97; 47; 98; 47; 99] (I_ 1));
+    HSetT _ _ [97; 47; 98] (TVNum _ _ (PInt KI32 5));
+    HOp _ _ (OHas _ _ [97; 47; 98; 47; 99]);
+    HOp _ _ (OGet _ _ [97; 47; 98; 47; 99]);
+    HOp _ _ (OSizeAt _ _ [97; 47; 98]) ].
+
+Example stale_entries_are_kept_and_hidden :
+  let '(h, xs) := hm_run unit unit false false false (hnone unit unit) stale_history in
+  (* the hidden member is there ... *)
+  (exists n s a, hm_cget unit unit 10 (cstr [97; 47; 98]) h
+                 = MOk (HJ unit unit TNum n s a [([99], clean_of unit unit (I_ 1))])) /\
+  (* ... and nothing shows it *)
+  map (vis_obs unit unit) xs = [VUnit _ _; VUnit _ _; VBool _ _ false; VVal _ _ JNone; VInt _ _ 0%Z].
+Proof. vm_compute. split; [eexists _, _, _; reflexivity | reflexivity]. Qed.
+
+(* what the guard of json::has is for: the same walker without `if (j->type != object_) return false`
+   (seeded/C25-b) answers true below the number *)
+Example has_needs_its_type_guard :
+  let h := fst (hm_run unit unit false false false (hnone unit unit) stale_history) in
+  hm_has unit unit 10 (cstr [97; 47; 98; 47; 99]) h = MOk false /\
+  hm_has_noguard unit unit 10 (cstr [97; 47; 98; 47; 99]) h = MOk true.
+Proof. vm_compute. split; reflexivity. Qed.
+
+(* the pinned json::set brings stale entries back: j["a"] = 1; j = "s" (typed, the root); j.set("k", 2) *)
+Definition resurrect_history : list thop :=
+  [ HOp _ _ (OSet _ _ [97] (I_ 1)); HSetT _ _ [] (TVStr _ _ [115]); HOp _ _ (OSetKey _ _ [107] (I_ 2)) ].
+
+Theorem set_resurrects_stale_entries_refuted :
+  vis unit unit (fst (hm_run unit unit false false true (hnone unit unit) resurrect_history))
+    = JObj [([97], I_ 1); ([107], I_ 2)] /\
+  fst (run_spec (map (op_vis unit unit) resurrect_history)) = DObj _ _ [([107], DVal _ _ (I_ 2))] /\
+  run_safe unit unit false false true (hnone unit unit) resurrect_history = false /\
+  vis unit unit (fst (hm_run unit unit false false false (hnone unit unit) resurrect_history)) = JObj [([107], I_ 2)].
+Proof. repeat split; vm_compute; reflexivity. Qed.
+
 (* the path syntax on a few shapes *)
 Example split_path_examples :
   split_path true [97; 47; 98; 47; 99] = [[97]; [98]; [99]] /\          (* a/b/c *)
@@ -144,3 +234,4 @@ Proof. repeat split; vm_compute; reflexivity. Qed.
 
 Print Assumptions merge_key_as_path_refuted.
 Print Assumptions get_without_escape_refuted.
+Print Assumptions set_resurrects_stale_entries_refuted.
